@@ -67,6 +67,8 @@ class Explorer:
         self.work: list[list[bool]] = [[]]
         self.exported: list[str] = []  # sampled SMT-LIB2 end-of-path queries for the second solver
         self.export_limit = 0
+        self.budget_s = None
+        self.results = []
         self._reset_path([])
 
     # ---- per path state
@@ -342,13 +344,16 @@ class Explorer:
         (self.work) is then distributed over a process pool."""
         if prefixes is not None:
             self.work = [list(p) for p in prefixes]
-        results = []
+        results = self.results = []  # kept on the explorer so that partial results survive an abort
+        t0 = time.time()
         while self.work:
             if stop_when_queued is not None and len(self.work) >= stop_when_queued:
                 break
             prefix = self.work.pop(0) if stop_when_queued is not None else self.work.pop()
             if self.paths >= self.max_paths:
                 raise Unsupported("max paths %d reached" % self.max_paths)
+            if self.budget_s is not None and time.time() - t0 > self.budget_s:
+                raise Unsupported("time budget %ds of this exploration task exhausted" % self.budget_s)
             results.append(self.run_path(fn, prefix))
         return results
 
